@@ -393,7 +393,8 @@ def byte_pred(prog, f, e, env, tables):
         return env.get(nm)
     if k == 'ArraySubscriptExpr':
         b = strip(children(s)[0])
-        if env.get('*') is not None and env.get('?neutral') and (qtype(b) or '').rstrip().endswith('*') and \
+        is_ctype = any(x.get('kind') == 'CallExpr' and prog.callee_name(x) == '__ctype_b_loc' for x in walk(b))
+        if env.get('*') is not None and env.get('?neutral') and not is_ctype and (qtype(b) or '').rstrip().endswith('*') and \
                 (b.get('referencedDecl') or {}).get('name') not in tables:
             return env['*']             # str[i]: the byte under the scan index (strrules, index form of a cursor loop)
         idx = byte_pred(prog, f, children(s)[1], env, tables)
@@ -407,7 +408,7 @@ def byte_pred(prog, f, e, env, tables):
             if st is not None and 0 <= idx <= len(st):
                 return (st + b'\0')[idx]
         # glibc ctype macro: (*__ctype_b_loc())[(int)(c)] -> class bits, modelled through the mask it is and-ed with
-        if any(x.get('kind') == 'CallExpr' and prog.callee_name(x) == '__ctype_b_loc' for x in walk(b)):
+        if is_ctype:
             return ('ctype', idx)
         return None
     if k == 'UnaryOperator':
